@@ -230,10 +230,10 @@ func fileToString(L *LState) int {
 }
 
 func fileWriteAux(L *LState, file *lFile, idx int) int {
+	errorIfFileIsClosed(L, file)
 	if n := fileIsWritable(L, file); n != 0 {
 		return n
 	}
-	errorIfFileIsClosed(L, file)
 	top := L.GetTop()
 	out := file.writer
 	var err error
@@ -303,10 +303,10 @@ errreturn:
 }
 
 func fileFlushAux(L *LState, file *lFile) int {
+	errorIfFileIsClosed(L, file)
 	if n := fileIsWritable(L, file); n != 0 {
 		return n
 	}
-	errorIfFileIsClosed(L, file)
 
 	if bwriter, ok := file.writer.(*bufio.Writer); ok {
 		if err := bwriter.Flush(); err != nil {
@@ -320,10 +320,10 @@ func fileFlushAux(L *LState, file *lFile) int {
 }
 
 func fileReadAux(L *LState, file *lFile, idx int) int {
+	errorIfFileIsClosed(L, file)
 	if n := fileIsReadable(L, file); n != 0 {
 		return n
 	}
-	errorIfFileIsClosed(L, file)
 	if L.GetTop() == idx-1 {
 		L.Push(LString("*l"))
 	}
@@ -413,6 +413,7 @@ var fileSeekOptions = []string{"set", "cur", "end"}
 
 func fileSeek(L *LState) int {
 	file := checkFile(L)
+	errorIfFileIsClosed(L, file)
 	if file.Type() != lFileFile {
 		L.Push(LNil)
 		L.Push(LString("can not seek a process."))
@@ -482,6 +483,7 @@ func fileLinesIter(L *LState) int {
 
 func fileLines(L *LState) int {
 	file := checkFile(L)
+	errorIfFileIsClosed(L, file)
 	ud := L.CheckUserData(1)
 	if n := fileIsReadable(L, file); n != 0 {
 		return 0
@@ -500,6 +502,7 @@ func fileSetVBuf(L *LState) int {
 	var err error
 	var writer io.Writer
 	file := checkFile(L)
+	errorIfFileIsClosed(L, file)
 	if n := fileIsWritable(L, file); n != 0 {
 		return n
 	}
